@@ -425,6 +425,9 @@ impl<'a> Gen<'a> {
         let mut hs = Handles::default();
         let (lo, hi) = self.cfg.ops_per_tx;
         let mut n_ops = self.rng.range(lo as u64, hi as u64) as usize;
+        if tx_index > 0 && self.rng.chance(1, 25) {
+            n_ops = 0; // a write transaction that commits (or rolls back) without touching anything
+        }
         if (self.cfg.profile == 1 || self.cfg.profile == 4) && tx_index == 0 {
             n_ops = n_ops.max(hi * 2);
         }
